@@ -172,7 +172,12 @@ def run(ctx):
     ps["1FTJ+ligand"] = [ln for ln in C.body(C.test_pdb_text("1FTJ-Chain-A")) if C.is_atom(ln) and ln[17:20] != "HOH"]
     same = [("1FTJ+ligand", "1FTJ+ligand", gap, d, order, "same-chain")
             for gap, d, order in ((30000, (1, 0, 0), 0), (1500000, (0, 1, 0), 1), (26000, (0, 0, -1), 1), (400000, (1, 1, 0), 0))]
-    combos += same if ctx.thorough() else [same[ctx.seed % 2]]
+    combos += same if ctx.thorough() else [same[0]] + ([same[1]] if ctx.seed % 2 else [])     # (30 A: inside 100 A, beyond every cut-off)
+    # a part with a non-covalently coupled system that is coupled only just (1FTJ: Glu 193 and the bound glutamate) next to
+    # another protein: which groups count as coupled (marks, stars) is a result of the part like any other
+    combos.append(("1FTJ+ligand", "1HPX-A", 600000, (1, 0, 0), ctx.seed % 2, False))
+    if ctx.thorough():
+        combos.append(("1FTJ+ligand", "1HPX-A", 40000, (0, 0, -1), 1 - ctx.seed % 2, False))
     # the largest separations the coordinate field admits: corner to corner (about 18700 A) and end to end of one axis
     far = [("frag-3SGB-I", "frag-1FTJ", 9000000, (1, 1, 1), 0, False), ("frag-1FTJ", "frag-3SGB-I", 10800000, (0, 1, 0), 1, False),
            ("frag-3SGB-I", "frag-3SGB-I", 10800000, (-1, 0, 0), 0, False)]
